@@ -1849,7 +1849,7 @@ Trace genTz(const std::string& profile, uint64_t seed) {
 }
 
 
-// --- sweep08: bounded exhaustive supplement for C08 (thorough tier), reported apart from the seeded search.
+// --- sweep08: bounded exhaustive supplement for C08 (both tiers; also in the sanitizer build in the thorough tier), reported apart from the seeded search.
 // Family 1: for every shipped zone (both databases) one direct client on one processor walks every ORDERED PAIR
 //   (a, b) of cached-year states: a question about state a, then four questions (utc, delta, abbrev, zdc) about
 //   state b, each compared with what a fresh poison-built processor answered to it. States: 1 Jan 00:00, day 90,
